@@ -39,7 +39,7 @@ ASSUMPTIONS = ['an invalid entry must raise (ValueError or TypeError for plain w
                'threads: sampled line-granularity schedules; absence of a race is not established']
 # the exhaustive depth<=2 sweep (never non-trivial: the rule asks for depth >= 3) is part of the
 # kind:single denominator
-FLOORS = {'single:nontrivial': (0.1, 'kind:single'), 'entry:invalid': (0.3, 'kind:single'),
+FLOORS = {'single:nontrivial': (0.05, 'kind:single'), 'successive:nontrivial': (0.5, 'kind:successive'), 'entry:invalid': (0.3, 'kind:single'),
           'entry:raising-object': (0.08, 'kind:single'), 'exit:raise': (0.3, 'kind:single'),
           'threads:nontrivial': (0.3, 'kind:threads')}
 TECHNIQUE = ('model-based property testing of scope-entry programs (generated trees + exhaustive '
@@ -135,6 +135,11 @@ def run_program(nodes, observe, captured, labels, yield_now=lambda: None, depth=
       observe(call=False)
     elif kind == 'call':
       observe(call=True)
+    elif kind == 'make':
+      # a scope manager created here and entered later, possibly inside another scope: what counts
+      # is the scope active when it is *entered*
+      observe.stash.append((node[1], gin.config_scope(node[1])))
+      labels.add('manager-created-ahead')
     elif kind == 'scribble':
       # what current_scope() returns is the caller's to edit: the active scope is not affected
       lst = gin.current_scope()
@@ -157,6 +162,7 @@ def run_program(nodes, observe, captured, labels, yield_now=lambda: None, depth=
     elif kind == 'with':
       _, spec, exit_kind, children = node
       model = observe.stack
+      stored_cm = None
       if spec[0] == 'name':
         entry, valid = spec[1], True
       elif spec[0] == 'list':
@@ -166,6 +172,15 @@ def run_program(nodes, observe, captured, labels, yield_now=lambda: None, depth=
           entry, valid = captured[spec[1] % len(captured)], True
         else:
           entry, valid = [], True
+      elif spec[0] == 'stored':
+        if observe.stash:
+          entry, stored_cm = observe.stash.pop(spec[1] % len(observe.stash))
+          labels.add('entry:stored-manager')
+          if model.current:
+            labels.add('stored-manager-entered-inside-a-scope')
+        else:
+          entry, stored_cm = 'a', None
+        valid = True
       elif spec[0] == 'derived':
         # a child (or sibling) scope derived by editing the list current_scope() returned, then
         # entered as an explicit list
@@ -201,7 +216,7 @@ def run_program(nodes, observe, captured, labels, yield_now=lambda: None, depth=
 
       def body():
         """The with block, as a generator so that it can also be left by GeneratorExit."""
-        with gin.config_scope(entry) as yielded:
+        with (stored_cm if stored_cm is not None else gin.config_scope(entry)) as yielded:
           entered[0] = True
           model.enter(list(entry) if isinstance(entry, list) else entry)
           require(yielded == model.current, 'yielded-scope',
@@ -264,6 +279,7 @@ def make_observer(log, label):
     log.append(tuple(cur))
 
   observe.stack = stack
+  observe.stash = []
   return observe
 
 
@@ -280,7 +296,8 @@ def check_single(case):
     raise Violation('scope-stack-corrupted', f'IndexError: {e}')
   require(gin.current_scope() == [], 'scope-not-restored-at-end', str(gin.current_scope()))
   nt = ('depth>=3' in labels and bool(labels & {'exit:raise', 'exit:raise-base', 'exit:generator-close', 'exit:invalid-entry'}) and
-        bool(labels & {'entry:list', 'entry:captured', 'entry:derived', 'entry:none', 'entry:empty'}))
+        bool(labels & {'entry:list', 'entry:captured', 'entry:derived', 'entry:stored-manager',
+                       'entry:none', 'entry:empty'}))
   if nt:
     labels.add('single:nontrivial')
   return ok(labels, nt)
@@ -329,9 +346,66 @@ def check_threads(case):
   return ok(labels, nt)
 
 
+_KEEP = []     # suspended generators are kept alive: they are never finalised in another thread
+
+
+def check_successive(case):
+  """Threads run one after another (each joined before the next starts); a thread may end while a
+  scope is still open in it (a generator suspended inside the with block that outlives the
+  thread).  Every new thread starts in the root scope, whatever earlier threads left behind --
+  thread identifiers are commonly reused -- and the main thread's scope never changes."""
+  import threading  # pylint: disable=g-import-not-at-top
+  gin.clear_config()
+  gin.parse_config(CONFIG)
+  build_shared()
+  labels = {'kind:successive'}
+  idents = []
+  main_entry = case.get('main_scope') or None
+  with gin.config_scope(main_entry):
+    main_before = gin.current_scope()
+    for i, (program, leave) in enumerate(case['threads']):
+      failure = []
+
+      def run(program=program, leave=leave, i=i):
+        try:
+          idents.append(threading.get_ident())
+          observe = make_observer([], f'thread #{i}: ')
+          observe(call=True, what='at thread start')
+          run_program(program, observe, [], labels)
+          observe(call=True, what='after the program')
+          if leave:
+            def hold():
+              with gin.config_scope(leave):
+                yield
+            g = hold()
+            next(g)
+            _KEEP.append(g)
+            labels.add('thread-ended-inside-a-scope')
+        except Violation as v:
+          failure.append(v)
+        except IndexError as e:
+          failure.append(Violation('scope-stack-corrupted', f'thread #{i}: IndexError: {e}'))
+
+      t = threading.Thread(target=run)
+      t.start()
+      t.join()
+      if failure:
+        raise failure[0]
+      require(gin.current_scope() == main_before, 'main-thread-scope-changed',
+              lambda: f'after thread #{i}: {gin.current_scope()} vs {main_before}')
+  if len(set(idents)) < len(idents):
+    labels.add('thread-identifier-reused')
+  nt = 'thread-ended-inside-a-scope' in labels and len(case['threads']) >= 2
+  if nt:
+    labels.add('successive:nontrivial')
+  return ok(labels, nt)
+
+
 def check_case(case):
   if case['kind'] == 'single':
     return check_single(case)
+  if case['kind'] == 'successive':
+    return check_successive(case)
   return check_threads(case)
 
 
@@ -342,6 +416,7 @@ _spec = st.one_of(
     st.lists(st.sampled_from(['a', 'b', 'x', 'y']), max_size=3).map(lambda l: ['list', l]),
     st.integers(0, 5).map(lambda k: ['captured', k]),
     st.tuples(st.sampled_from(['a', 'b', 'x']), st.booleans()).map(lambda t: ['derived', t[0], t[1]]),
+    st.integers(0, 3).map(lambda k: ['stored', k]),
     st.just(['none']), st.just(['empty']),
     st.integers(0, N_BAD - 1).map(lambda i: ['bad', i]),
     st.integers(0, N_BAD - 1).map(lambda i: ['bad', i]))
@@ -349,11 +424,13 @@ _valid_spec = st.one_of(
     st.sampled_from(['a', 'b', 'x', 'a/b', 'x/y']).map(lambda n: ['name', n]),
     st.lists(st.sampled_from(['a', 'b', 'x', 'y']), max_size=3).map(lambda l: ['list', l]),
     st.tuples(st.sampled_from(['a', 'b', 'x']), st.booleans()).map(lambda t: ['derived', t[0], t[1]]),
+    st.integers(0, 3).map(lambda k: ['stored', k]),
     st.just(['none']))
 
 
 def _nodes(depth, spec=_spec):
-  leaf = st.sampled_from([['check'], ['call'], ['scribble'], ['scoped-call', 0], ['scoped-call', 1],
+  leaf = st.sampled_from([['check'], ['call'], ['scribble'], ['make', 'b'], ['make', 'x/y'],
+                          ['scoped-call', 0], ['scoped-call', 1],
                           ['scoped-call', 2], ['scoped-call', 4]])
   if depth <= 0:
     return st.lists(leaf, max_size=2)
@@ -377,9 +454,18 @@ def _threads_case(draw):
   return {'kind': 'threads', 'programs': programs, 'schedule': schedule}
 
 
+@st.composite
+def _successive_case(draw):
+  threads = [[draw(_nodes(2, _valid_spec)), draw(st.sampled_from(['', 'a', 'a/b', 'x']))]
+             for _ in range(draw(st.integers(2, 4)))]
+  return {'kind': 'successive', 'threads': threads,
+          'main_scope': draw(st.sampled_from(['', '', 'y', 'b/a']))}
+
+
 def strategy():
   single = _nodes(5).map(lambda p: {'kind': 'single', 'program': p})
-  return st.one_of(single, single, _threads_case())
+  return st.one_of(single, single, single, single, _threads_case(), _threads_case(),
+                   _successive_case())
 
 
 def sweep(tier):
